@@ -26,8 +26,8 @@ from harness import ipsec_ref as R
 from harness.cases.C29 import FR
 from xknx.exceptions import CouldNotParseKNXIP, IPSecureError, KNXSecureValidationError
 from xknx.io import ip_secure
-from xknx.io.ip_secure import SecureSequenceTimer, SecureSession, _IPSecureTransportLayer
-from xknx.knxip import KNXIPFrame, RoutingIndication, SecureWrapper, SessionResponse, TimerNotify, TunnellingRequest
+from xknx.io.ip_secure import SecureGroup, SecureSequenceTimer, SecureSession, _IPSecureTransportLayer
+from xknx.knxip import HPAI, KNXIPFrame, KNXIPServiceType, RoutingIndication, SecureWrapper, SessionResponse, TimerNotify, TunnellingRequest
 from xknx.secure import security_primitives as sp
 
 logging.getLogger("xknx").setLevel(logging.CRITICAL + 1)
@@ -121,6 +121,8 @@ def run_impl(case):
         if out == "okraw":
             return {"out": out, "expect": "ok " + case["payload"]}
         return out
+    if kind == "decf":
+        return impl_decf(case, bytes.fromhex(t[2]), int(t[3]), bytes.fromhex(t[4]), bytes.fromhex(t[5]))
     if kind == "handshake":
         dk, uk, uid, sid, x, m = t[2], bytes.fromhex(t[3]), int(t[4]), bytes.fromhex(t[5]), t[6], bytes.fromhex(t[7])
         return impl_handshake(case, None if dk == "-" else bytes.fromhex(dk), uk, uid, int.from_bytes(sid, "big"), m)
@@ -129,6 +131,63 @@ def run_impl(case):
     if kind == "ntfverify":
         return _loop.run_until_complete(impl_ntfverify(*(bytes.fromhex(x) for x in t[2:7])))
     raise ValueError(kind)
+
+
+def _tampered(case, body):
+    """The genuine wrapper parsed into a KNXIPFrame object, then header attributes of the OBJECT altered."""
+    genuine = bytes.fromhex(case["genuine_header"]) + body
+    frame, rest = KNXIPFrame.from_knx(genuine)
+    assert not rest and isinstance(frame.body, SecureWrapper)
+    if "total_length" in case:
+        frame.header.total_length = case["total_length"]
+    if "service" in case:
+        frame.header.service_type_ident = KNXIPServiceType(case["service"])
+    return frame
+
+
+def _deliver(obj, frame):
+    got = []
+    cb = obj.register_callback(lambda f, _s, _t: got.append(f.to_knx().hex()), None)
+    try:
+        obj.handle_knxipframe(frame, HPAI("192.168.1.9", 3671))
+    except KNXSecureValidationError:
+        return "raise"
+    except CouldNotParseKNXIP:
+        return "parse"
+    finally:
+        obj.unregister_callback(cb)
+    return ("f " + got[0]) if got else "d"
+
+
+def impl_decf(case, key, sid, hdr, body):
+    """decrypt_frame + both handle_knxipframe entry points on the tampered object, then the genuine frame on the same objects."""
+    frame = _tampered(case, body)
+    assert frame.header.to_knx() == hdr, "op line does not carry the header the object serialises to"
+    try:
+        inner = _layer(key, sid).decrypt_frame(frame)
+        dec = "ok " + inner.to_knx().hex()
+    except KNXSecureValidationError:
+        dec = "reject"
+    except CouldNotParseKNXIP:
+        dec = "okraw"
+    # SecureSession.handle_knxipframe
+    sess = SecureSession.__new__(SecureSession)
+    sess.callbacks = []
+    sess.initialized, sess.session_id, sess._key, sess._sequence_number_received = True, sid, key, -1
+    s1 = _deliver(sess, frame)
+    s2 = _deliver(sess, _tampered({"genuine_header": case["genuine_header"]}, body))
+    # SecureGroup.handle_knxipframe (session id 0 only; timer synchronised to the wrapper's timer value)
+    g1 = g2 = "na"
+    if sid == 0:
+        async def grp():
+            g = SecureGroup(local_addr=("192.168.1.50", 0), remote_addr=("224.0.23.12", 3671), backbone_key=key, latency_ms=1000)
+            g.secure_timer.timer_authenticated = True
+            g.secure_timer.sched_update = True     # no reschedule: nothing left running on the loop
+            g.secure_timer._clock_difference = int.from_bytes(body[2:8], "big") - g.secure_timer._monotonic_ms()
+            return _deliver(g, frame), _deliver(g, _tampered({"genuine_header": case["genuine_header"]}, body))
+        g1, g2 = _loop.run_until_complete(grp())
+    out = f"{dec}|{s1}|{s2}|{g1}|{g2}"
+    return {"out": out, "expect": dec if dec != "okraw" else "ok " + case["payload"]}
 
 
 def impl_handshake(case, dk, uk, uid, sid, mac):
@@ -198,6 +257,24 @@ def oracle(case, out):
             return f"tampered wrapper accepted ({case.get('what', '')})"
         if exp == "ok" and out not in ("ok " + case["payload"], "okraw"):
             return f"genuine wrapper not unwrapped to the identical frame: {out[:80]}"
+        return None
+    if kind == "decf":
+        dec, s1, s2, g1, g2 = out.split("|")
+        want_ok = "f " + case["payload"]
+        if case["want"] == "reject":
+            what = case.get("what", "")
+            if dec != "reject":
+                return f"decrypt_frame accepted a wrapper whose header object was altered ({what}): {dec[:40]}"
+            if s1.startswith("f"):
+                return f"SecureSession.handle_knxipframe delivered a wrapper whose header object was altered ({what})"
+            if g1.startswith("f"):
+                return f"SecureGroup.handle_knxipframe delivered a wrapper whose header object was altered ({what})"
+        elif dec != "ok " + case["payload"] or s1 != want_ok or g1 not in ("na", want_ok):
+            return f"genuine wrapper object not unwrapped / delivered: {dec[:30]} | {s1[:30]} | {g1[:30]}"
+        else:
+            return None        # (delivering the genuine frame a second time to the session would be a replay)
+        if s2 != want_ok or g2 not in ("na", want_ok):
+            return f"the genuine wrapper is no longer accepted after the tampered one: {s2[:30]} | {g2[:30]}"
         return None
     if kind == "handshake":
         exp = case["want"]
@@ -293,6 +370,28 @@ def generate(rng, tier):
                 f[bit // 8] ^= 0x80 >> (bit % 8)
                 yield {"op": f"c28 unwrapc {key.hex()} {sid} {bytes(f).hex()}", "want": "reject",
                        "what": f"bit {bit} flipped (octet {bit // 8})", "payload": p.hex()}
+    # object-level tampering: the genuine wrapper parsed into a KNXIPFrame, then header attributes of the OBJECT altered
+    # (what decrypt_frame / handle_knxipframe actually receive); every bit of total_length, every other service type
+    for i in range(10 if quick else 120):
+        key, sid, seq, ser, tag, p = _wrap_case(rng, False)
+        if i % 2 == 0:
+            sid = 0                                   # also through SecureGroup.handle_knxipframe
+        w = R.wrap(key, sid, seq, ser, tag, p)
+        gh, body = w[:6], w[6:]
+        base = {"genuine_header": gh.hex(), "payload": p.hex()}
+        yield dict(base, op=f"c28 decf {key.hex()} {sid} {gh.hex()} {body.hex()}", want="ok")
+        tl = int.from_bytes(gh[4:6], "big")
+        for bit in range(16):
+            v = tl ^ (1 << bit)
+            hdr = gh[:4] + v.to_bytes(2, "big")
+            yield dict(base, op=f"c28 decf {key.hex()} {sid} {hdr.hex()} {body.hex()}", want="reject", total_length=v,
+                       what=f"total_length {tl} -> {v}")
+        for svc in KNXIPServiceType:
+            if svc.value == 0x0950:
+                continue
+            hdr = gh[:2] + svc.value.to_bytes(2, "big") + gh[4:6]
+            yield dict(base, op=f"c28 decf {key.hex()} {sid} {hdr.hex()} {body.hex()}", want="reject", service=svc.value,
+                       what=f"service_type_ident -> {svc.name}")
     # authenticated garbage inside (MAC accepted, inner frame unparsable)
     for _ in range(10 if quick else 100):
         key, sid, seq, ser, tag, _p = _wrap_case(rng, False)
